@@ -230,6 +230,69 @@ func c19BuildPool(rng *rand.Rand, n int) *c19Pool {
 	return p
 }
 
+// c19SelfColl is a name whose own hash starts with the same two bytes as the
+// hash of one of its ancestors, or two of whose ancestors collide.
+type c19SelfColl struct {
+	// Name has at most four labels, so that every ancestor above the ICANN
+	// suffix is an allowed sub-domain.
+	Name string
+	// Ancestor is the colliding ancestor.
+	Ancestor string
+	// Kind is "name=parent", "name=grandparent" or "parent=grandparent".
+	Kind string
+}
+
+// c19BuildSelfColl searches label counters until sha256(name)[:2] equals
+// sha256(ancestor)[:2].
+func c19BuildSelfColl(rng *rand.Rand, nBases, tries int) (out []c19SelfColl) {
+	sufs := []string{"com", "org", "co.uk", "com.au", "github.io", "blogspot.com"}
+	words := []string{"www", "cdn", "w", "mail", "x"}
+	usable := func(n string) bool {
+		d, ok := c19Analyse(n)
+		return ok && d.NLabels <= 4 && len(d.A) >= 2 && c19AgreesWithPSL(d)
+	}
+	for b := 0; b < nBases; b++ {
+		suf := sufs[rng.Intn(len(sufs))]
+		reg := c19Label(rng) + c19Label(rng) + "." + suf // registrable domain
+		word := words[rng.Intn(len(words))]
+		regP := c19Hash(reg)[:4]
+		twoLabelSuffix := strings.Count(suf, ".") == 1
+		// name = parent.
+		var firstChild string
+		for k := 0; k < tries; k++ {
+			n := fmt.Sprintf("%s%d.%s", word, k, reg)
+			if c19Hash(n)[:4] == regP && usable(n) {
+				out = append(out, c19SelfColl{n, reg, "name=parent"})
+				if firstChild == "" {
+					firstChild = n
+				}
+			}
+		}
+		if twoLabelSuffix {
+			continue
+		}
+		// name = grandparent: one more label in between.
+		mid := c19Label(rng) + "." + reg
+		for k := 0; k < tries; k++ {
+			n := fmt.Sprintf("%s%d.%s", word, k, mid)
+			if c19Hash(n)[:4] == regP && usable(n) {
+				out = append(out, c19SelfColl{n, reg, "name=grandparent"})
+			}
+		}
+		// parent = grandparent: any child of a name that collides with its
+		// parent.
+		if firstChild != "" {
+			for i := 0; i < 2; i++ {
+				n := c19Label(rng) + "." + firstChild
+				if usable(n) {
+					out = append(out, c19SelfColl{n, reg, "parent=grandparent"})
+				}
+			}
+		}
+	}
+	return out
+}
+
 // sharing returns up to max pool names whose hash starts with the same two
 // bytes as the hash of s, s itself excluded.
 func (p *c19Pool) sharing(rng *rand.Rand, s string, max int) []string {
@@ -593,7 +656,7 @@ func c19Want(d c19Dom, db *c19DB) (want string, by string) {
 	return "clean", ""
 }
 
-func c19RunHistory(rep *verifkit.Report, rng *rand.Rand, pool *c19Pool, sample bool) {
+func c19RunHistory(rep *verifkit.Report, rng *rand.Rand, pool *c19Pool, selfColl []c19SelfColl, sample bool) {
 	cacheSize := c19CacheSizes[rng.Intn(len(c19CacheSizes))]
 	cacheTime := c19CacheTimes[rng.Intn(len(c19CacheTimes))]
 	suffix := c19TXTSuffixes[rng.Intn(len(c19TXTSuffixes))]
@@ -608,6 +671,27 @@ func c19RunHistory(rep *verifkit.Report, rng *rand.Rand, pool *c19Pool, sample b
 			return
 		}
 		universe = append(universe, d)
+	}
+	// Names that collide with their own ancestors: child and ancestor are
+	// listed independently (only the ancestor, only the name, both, neither),
+	// and the ancestor and the parent are checked too, so that the cache is
+	// fresh or warm for the shared prefix when the name is checked.
+	if len(selfColl) > 0 && rng.Intn(4) == 0 {
+		for n := 1 + rng.Intn(2); n > 0; n-- {
+			sc := selfColl[rng.Intn(len(selfColl))]
+			addName(sc.Name)
+			if rng.Intn(2) == 0 {
+				addName(sc.Name) // checked more often
+			}
+			if rng.Intn(2) == 0 {
+				addName(sc.Ancestor)
+			}
+			if rng.Intn(3) == 0 {
+				addName(sc.Name[strings.Index(sc.Name, ".")+1:])
+			}
+			cands = append(cands, c19Cand{sc.Name, 50}, c19Cand{sc.Ancestor, 50})
+			rep.Class("history_with_name_colliding_with_own_ancestor:" + sc.Kind)
+		}
 	}
 	nBases := 1 + rng.Intn(3)
 	for b := 0; b < nBases; b++ {
@@ -815,9 +899,31 @@ func c19RunHistory(rep *verifkit.Report, rng *rand.Rand, pool *c19Pool, sample b
 			if rest == "" {
 				continue
 			}
+			inThis := map[string]bool{}
 			for _, l := range strings.Split(rest, ".") {
+				if inThis[l] {
+					// Allowed either way: it discloses nothing new.
+					rep.Event("questions_with_a_repeated_prefix")
+				}
+				inThis[l] = true
 				askedNow[l] = true
 			}
+		}
+		// Does a sub-domain of the name share its prefix with an earlier
+		// (longer) sub-domain of the same name, and is such a one listed?
+		selfCollides, listedBehindTwin := false, false
+		for j, a := range d.A {
+			for _, e := range d.A[:j] {
+				if c19Hash(e)[:4] == c19Hash(a)[:4] {
+					selfCollides = true
+					if db.set[c19Hash(a)] {
+						listedBehindTwin = true
+					}
+				}
+			}
+		}
+		if selfCollides {
+			rep.Class("checks_of_a_name_colliding_with_own_ancestor")
 		}
 		// Was one of the allowed prefixes in a failed request earlier?
 		afterErr, taintedHit := false, false
@@ -934,6 +1040,12 @@ func c19RunHistory(rep *verifkit.Report, rng *rand.Rand, pool *c19Pool, sample b
 				if got && by != d.Name {
 					rep.Event("blocked_because_of_a_parent_domain")
 				}
+				if selfCollides {
+					rep.Event("correct_verdicts_of_names_colliding_with_own_ancestor:" + gotS)
+				}
+				if got && listedBehindTwin && by != d.Name && askedNow[c19Hash(by)[:4]] {
+					rep.Event("blocked_after_lookup_by_listed_ancestor_whose_prefix_equals_that_of_a_longer_subdomain")
+				}
 				if afterErr {
 					rep.Event("correct_verdicts_after_recovery_for_prefixes_of_a_failed_request")
 					if got {
@@ -990,6 +1102,9 @@ func c19RunHistory(rep *verifkit.Report, rng *rand.Rand, pool *c19Pool, sample b
 			if afterErr {
 				detail += ":after-upstream-error"
 			}
+			if selfCollides {
+				detail += ":name-shares-prefix-with-own-ancestor"
+			}
 			rep.Violate(fmt.Sprintf("verdict:want-%s-got-%s:%s:%s%s", want, gotS, how, cc, detail),
 				fmt.Sprintf("Check(%q) = %s, but a fresh lookup in the service database gives %s (step %d of the history, %s)",
 					d.Name, gotS, want, len(trace), source),
@@ -1025,6 +1140,8 @@ func TestVerifC19(t *testing.T) {
 	}()
 	rng := rep.Rand("main")
 	pool := c19BuildPool(rep.Rand("pool"), verifkit.Pick(200000, 400000))
+	selfColl := c19BuildSelfColl(rep.Rand("selfcoll"), verifkit.Pick(14, 40), 150000)
+	rep.EventN("names_found_colliding_with_own_ancestor", len(selfColl))
 	rep.EventN("pool_names_hashed", len(pool.names))
 	rep.EventN("pool_distinct_2byte_prefixes", len(pool.by))
 	rep.Assume("lower-case host names are passed to Checker.Check (DNSFilter.CheckHost lower-cases; letter case is exercised by the part \"filter\")")
@@ -1034,7 +1151,7 @@ func TestVerifC19(t *testing.T) {
 	n := verifkit.Pick(3000, 60000)
 	synctest.Run(func() {
 		for h := 0; h < n; h++ {
-			c19RunHistory(rep, rng, pool, h < 3)
+			c19RunHistory(rep, rng, pool, selfColl, h < 3)
 		}
 	})
 
@@ -1046,6 +1163,8 @@ func TestVerifC19(t *testing.T) {
 		"clean_although_service_returned_other_hash_with_same_prefix",
 		"database_replaced_after_full_expiry", "verdict_follows_replaced_database_after_expiry",
 		"malformed_txt_strings_served", "blocked_because_of_a_parent_domain",
+		"blocked_after_lookup_by_listed_ancestor_whose_prefix_equals_that_of_a_longer_subdomain",
+		"correct_verdicts_of_names_colliding_with_own_ancestor:clean",
 		"checks_during_service_failure:error",
 		"blocked_verdicts_after_recovery_for_prefixes_of_a_failed_request",
 	}
